@@ -161,6 +161,42 @@ impl Stats {
     }
 }
 
+impl Stats {
+    /// hand-over format between the lab process and the check that started it
+    pub fn to_value(&self) -> Value {
+        serde_json::json!({
+            "evaluations": self.evaluations,
+            "nontrivial": self.nontrivial.iter().collect::<Vec<_>>(),
+            "classes": self.classes,
+            "samples": self.samples,
+            "known": self.known,
+            "excluded": self.excluded,
+            "violations": self.violations.iter().map(|v| serde_json::json!({"check": v.check, "sig": v.sig, "detail": v.detail, "input": v.input})).collect::<Vec<_>>(),
+            "notes": self.notes,
+            "distinct_enumerated": self.distinct_enumerated,
+        })
+    }
+    pub fn from_value(v: &Value) -> Option<Stats> {
+        let mut s = Stats::new();
+        s.evaluations = v.get("evaluations")?.as_u64()?;
+        s.nontrivial = v.get("nontrivial")?.as_array()?.iter().filter_map(|x| x.as_u64()).collect();
+        for (k, n) in v.get("classes")?.as_object()? {
+            s.classes.insert(k.clone(), n.as_u64()?);
+        }
+        s.samples = v.get("samples")?.as_array()?.clone();
+        for (k, n) in v.get("known")?.as_object()? {
+            s.known.insert(k.clone(), n.as_u64()?);
+        }
+        s.excluded = v.get("excluded")?.as_u64()?;
+        for x in v.get("violations")?.as_array()? {
+            s.violations.push(Violation::new(x.get("check")?.as_str()?, x.get("sig")?.as_str()?.to_string(), x.get("detail")?.as_str()?.to_string(), x.get("input")?.clone()));
+        }
+        s.notes = v.get("notes")?.as_array()?.iter().filter_map(|x| x.as_str().map(|s| s.to_string())).collect();
+        s.distinct_enumerated = v.get("distinct_enumerated")?.as_u64()?;
+        Some(s)
+    }
+}
+
 /// Known findings file: `open:  property=<ID> sig=<signature> :: <text>` / `fixed: property=<ID> <commit> <text>`.
 #[derive(Default, Clone)]
 pub struct Findings {
